@@ -104,6 +104,15 @@ func c10Oracle(p *Plan) *Verdict {
 		}
 		if reencoded {
 			add("reencoded", sizeUnder(toCodec, data))
+			if compressed && comp != "" {
+				// the re-encoded form is compressed again for the other side: one more representation in memory. Its exact size
+				// depends on field order; a little slack upwards only makes the oracle accept a rejection near the boundary.
+				if m2 := newMessageFor(getSchema("sim").method("Unary").Input()); proto.Unmarshal(data, m2) == nil {
+					if b, err := refMarshal(toCodec, m2); err == nil {
+						add("recompressed", len(refCompress(comp, b))+24)
+					}
+				}
+			}
 		}
 		return m
 	}
@@ -265,10 +274,25 @@ func init() {
 				rc.Client.Msgs = []MsgSpec{small}
 				rc.Backend.Resp.Msgs = []MsgSpec{msg}
 			}
+			if dir == "request" && rc.Client.Compression == "" && L >= 64 && c.Bool() {
+				// the exact boundary in the client's own encoding: a body of L-1, L, L+1 or L+2 bytes on the wire (the size of
+				// the bytes field is adjusted until the encoded message has that length)
+				target := L + Pick(c, -1, 0, 1, 2)
+				for n := target - 12; n <= target; n++ {
+					if n < 0 {
+						continue
+					}
+					if d := bigMsg(n, fill, c); sizeUnderRef(rc.Client.Codec, d) == target {
+						rc.Client.Msgs = []MsgSpec{{Data: d, Compressed: false}}
+						break
+					}
+				}
+			}
 			if rc.Client.Form == FormConnectGet {
 				svc.MaxGetURL = 1 << 30
 			}
 			rc.Client.DeclareCL = Pick(c, "", "none", "exact")
+			rc.Client.EOFWithData = c.Bool() // whether the end of the body is told with its last bytes or by a read of its own
 			rc.Backend.Resp.DeclareCL = Pick(c, "", "", "exact")
 			if dir == "response" && c.Prob(0.25) {
 				// a handler that declares less than it writes: the declaration must not stand in for the limit
